@@ -21,7 +21,7 @@
 (*             "expr"}                                                     *)
 (*    how \in {"value","list","prefix","suffix","infix","exact"} for the   *)
 (*             attribute atoms, "is" for deprecated, and for expressions   *)
-(*             "eq_str","ne_str","eq_true","ne_true" with vs = <<pointer>> *)
+(*             "eq_str","eq_raw","ne_str","eq_true","ne_true", vs = <<ptr>> *)
 (* Filter    = set of atoms (conjunction);  FilterSet = [incl, excl]       *)
 (***************************************************************************)
 EXTENDS Integers, Sequences, FiniteSets
@@ -39,8 +39,9 @@ IsPrefix(p, s) == Len(p) <= Len(s) /\ \A i \in 1..Len(p) : s[i] = p[i]
 IsSuffix(p, s) == Len(p) <= Len(s) /\ \A i \in 1..Len(p) : s[Len(s) - Len(p) + i] = p[i]
 IsInfix(p, s)  == \E k \in 0..(Len(s) - Len(p)) : \A i \in 1..Len(p) : s[k + i] = p[i]
 
-(* the operation's name as shown to the user: upper-cased method, a blank, the path template *)
-OpName(op) == Upper(op.method) \o <<" ">> \o op.path
+(* the operation's name as shown to the user: for Open API upper-cased method, a blank, the path template; an operation     *)
+(* record may carry its name explicitly (`label`, e.g. GraphQL "Query.getBooks")                                                *)
+OpName(op) == IF "label" \in DOMAIN op THEN op.label ELSE Upper(op.method) \o <<" ">> \o op.path
 
 (* the values an attribute condition is compared with (a set: an operation may carry several tags or none) *)
 Values(op, by) ==
@@ -73,7 +74,7 @@ AtomVerdict(a, op) ==
     [] a.how = "infix"  -> IF \E x \in vals : IsInfix(a.v, x) THEN "T" ELSE "F"
     [] a.how = "exact"  -> IF \E x \in vals : x = a.v THEN "T" ELSE "F"
     [] a.how = "is"     -> IF op.depr = "true" THEN "T" ELSE "F"          \* by = "deprecated"
-    [] a.how = "eq_str" -> IF Pointer(op, a.vs[1]) = <<"str", a.v>> THEN "T" ELSE "F"
+    [] a.how \in {"eq_str", "eq_raw"} -> IF Pointer(op, a.vs[1]) = <<"str", a.v>> THEN "T" ELSE "F"   \* eq_raw: value written without quotes
     [] a.how = "ne_str" -> IF Pointer(op, a.vs[1])[1] = "absent" THEN "U"
                            ELSE IF Pointer(op, a.vs[1]) = <<"str", a.v>> THEN "F" ELSE "T"
     [] a.how = "eq_true" -> IF Pointer(op, a.vs[1]) = <<"bool", <<"true">> >> THEN "T" ELSE "F"
